@@ -6,6 +6,7 @@
 //! trusted: R15 (deep slice): get_claimable_balances: the body of the loop over the HTLCs of our current commitment while no funding spend is confirmed, verbatim as a function of one HTLC and the five running totals (the macro holder_commitment_htlcs! that yields the HTLCs is dropped); R11 for its panic!
 //! assume: the running totals plus one HTLC amount fit u64 (amounts are bounded by the channel value; the source adds unchecked)
 //! trusted: R15 (deep slice + captures): get_claimable_balances after the close: the test that tells an unrevoked counterparty commitment from a revoked one and the two flags each of the four `walk_htlcs!` invocations passes on (R8: `Some(x) == opt` on txids is opt_txid_eq)
+//! trusted: R15 (captures): get_claimable_balances after the close: the amount of the three ClaimableAwaitingConfirmations balances for our own funds (our current commitment, our previous one, cooperative close)
 //! trusted: R15 (deep slices): get_htlc_balance: the guards of the HTLCUpdate and HTLCSpendConfirmation arms of the scan and the pair the latter records, verbatim
 //! trusted: R15 (deep slice): get_htlc_balance: the predicate of the `.any(..)` in the guard of the MaturingOutput arm of the scan, verbatim as a function of one input of the maturing transaction (Txid/TxIn/descriptor skeletons)
 //! trusted: env: enum Balance, BalanceSource, HolderCommitmentTransactionBalance extracted; HTLCOutputInCommitment skeleton {offered, amount_msat, cltv_expiry, payment_hash}; HTLCSource skeleton with the three variants; payment_preimages is a stub map whose get() answers from a ghost map
@@ -186,6 +187,22 @@ pub struct ClosedFunding { pub current_counterparty_commitment_txid: Option<Txid
     if Some(txid) == funding_spent.current_counterparty_commitment_txid || Some(txid) == funding_spent.prev_counterparty_commitment_txid {
 //@with
     if Some(txid) == funding_spent.current_counterparty_commitment_txid {
+//@end
+pub struct HolderCommitmentTx { pub to_broadcaster: u64 }
+impl HolderCommitmentTx { #[verifier::external_body] pub fn to_broadcaster_value_sat(&self) -> (r: u64) ensures r == self.to_broadcaster { unimplemented!() } }
+pub struct SpentFunding { pub current_holder_commitment_tx: HolderCommitmentTx }
+//@extract lightning/src/chain/channelmonitor.rs :: impl ChannelMonitor :: fn get_claimable_balances
+//@capture R15 nth=1
+    res.push(Balance::ClaimableAwaitingConfirmations { amount_satoshis: $cur:seq, confirmation_height: conf_thresh, source: BalanceSource::HolderForceClosed, });
+//@capture R15 nth=2
+    res.push(Balance::ClaimableAwaitingConfirmations { amount_satoshis: $prev:seq, confirmation_height: conf_thresh, source: BalanceSource::HolderForceClosed, });
+//@slice R15
+    res.push(Balance::ClaimableAwaitingConfirmations { amount_satoshis: $coop:seq, confirmation_height: conf_thresh, source: BalanceSource::CoopClose, });
+//@with
+    fn own_balance_awaiting_confirmations(funding_spent: &SpentFunding, prev_holder_commitment_tx: &HolderCommitmentTx) -> (u64, u64, u64) { ($cur, $prev, $coop) }
+//@ret r
+//@ensures P C07 after-a-close-the-balance-awaiting-confirmations-is-what-the-commitment-that-confirmed-pays-us-our-current-one-our-previous-one-or-on-a-cooperative-close-our-current-balance
+    r.0 == funding_spent.current_holder_commitment_tx.to_broadcaster, r.1 == prev_holder_commitment_tx.to_broadcaster, r.2 == funding_spent.current_holder_commitment_tx.to_broadcaster,
 //@end
 // ---- get_claimable_balances while the channel is open: every HTLC of our current commitment is accounted for exactly once ----
 pub open spec fn rounded(htlc: &HTLCOutputInCommitment) -> u64 { if htlc.transaction_output_index is None { htlc.amount_msat } else { (htlc.amount_msat % 1000) as u64 } }
